@@ -8,6 +8,8 @@
      - elem_type.rs: convert_to_int / convert_to_uint / convert_to_bool, f64 special forms, the ImmOrPNode
        sniffing on the first character, the enumerated texts ([match_text_view!] -> unreachable!() = Panic),
        ValueKind / PValue / PIndex / ValueIndexed / AddressKind / RegPIndex / BitMask / NamedValue;
+       every node kind of mod.rs incl. Converter / IntConverter / SwissKnife / IntSwissKnife (formula and
+       expression texts are opaque strings at this level: formula::parse is property C05);
      - node_base.rs, register_base.rs and the node kinds; struct_reg.rs with the merge_impl! rules
        ([into_masked_int_regs]; [fixed = false] is the pinned code before 70ffa75); group.rs; mod.rs ([parse_doc]).
    Abstractions (see notes/C17.md): NodeId = the node's name (string_interner is a bijection between names
@@ -567,6 +569,33 @@ Arguments sk_attr {m}. Arguments sk_eb {m}. Arguments sk_streamable {m}. Argumen
 Arguments sk_consts {m}. Arguments sk_exprs {m}. Arguments sk_formula {m}. Arguments sk_unit {m}.
 Arguments sk_repr {m}.
 
+(* SwissKnifeNode, IntConverterNode, ConverterNode (formulas and expressions kept as text) *)
+Record fswiss (m : mode) := mkFswiss {
+  fk_attr : attr m; fk_eb : eb m; fk_streamable : D m (B m);
+  fk_vars : list (str * str); fk_consts : list (str * fval); fk_exprs : list (str * str);
+  fk_formula : str; fk_unit : option str; fk_repr : D m frep; fk_dnot : D m dnot; fk_dprec : D m (I m) }.
+Arguments fk_attr {m}. Arguments fk_eb {m}. Arguments fk_streamable {m}. Arguments fk_vars {m}.
+Arguments fk_consts {m}. Arguments fk_exprs {m}. Arguments fk_formula {m}. Arguments fk_unit {m}.
+Arguments fk_repr {m}. Arguments fk_dnot {m}. Arguments fk_dprec {m}.
+
+Record iconv (m : mode) := mkIconv {
+  ic_attr : attr m; ic_eb : eb m; ic_streamable : D m (B m);
+  ic_vars : list (str * str); ic_consts : list (str * I m); ic_exprs : list (str * str);
+  ic_to : str; ic_from : str; ic_pvalue : str; ic_unit : option str; ic_repr : D m irep; ic_slope : D m slope }.
+Arguments ic_attr {m}. Arguments ic_eb {m}. Arguments ic_streamable {m}. Arguments ic_vars {m}.
+Arguments ic_consts {m}. Arguments ic_exprs {m}. Arguments ic_to {m}. Arguments ic_from {m}.
+Arguments ic_pvalue {m}. Arguments ic_unit {m}. Arguments ic_repr {m}. Arguments ic_slope {m}.
+
+Record fconv (m : mode) := mkFconv {
+  fc_attr : attr m; fc_eb : eb m; fc_streamable : D m (B m);
+  fc_vars : list (str * str); fc_consts : list (str * fval); fc_exprs : list (str * str);
+  fc_to : str; fc_from : str; fc_pvalue : str; fc_unit : option str; fc_repr : D m frep; fc_dnot : D m dnot;
+  fc_dprec : D m (I m); fc_slope : D m slope; fc_linear : D m (B m) }.
+Arguments fc_attr {m}. Arguments fc_eb {m}. Arguments fc_streamable {m}. Arguments fc_vars {m}.
+Arguments fc_consts {m}. Arguments fc_exprs {m}. Arguments fc_to {m}. Arguments fc_from {m}.
+Arguments fc_pvalue {m}. Arguments fc_unit {m}. Arguments fc_repr {m}. Arguments fc_dnot {m}.
+Arguments fc_dprec {m}. Arguments fc_slope {m}. Arguments fc_linear {m}.
+
 Inductive saddr := SaAddr (a : imm ilit) | SaSwiss (k : iswiss Src) | SaPIndex (off : option (imm ilit)) (pi : str).
 Inductive addr := AAddr (a : imm Z) | ASwiss (name : str) | APIndex (off : option (imm Z)) (pi : str).
 Definition AK (m : mode) : Type := match m with Src => saddr | Par => addr end.
@@ -675,7 +704,8 @@ Inductive node_data :=
 | NdCommand (n : command Par) | NdEnumeration (n : enumeration Par) | NdEnumEntry (n : enumentry Par)
 | NdFloat (n : floatn Par) | NdFloatReg (n : floatreg Par) | NdString (n : stringn Par)
 | NdStringReg (n : regnode Par) | NdRegister (n : regnode Par) | NdIntSwissKnife (n : iswiss Par)
-| NdPort (n : port Par).
+| NdPort (n : port Par)
+| NdConverter (n : fconv Par) | NdIntConverter (n : iconv Par) | NdSwissKnife (n : fswiss Par).
 
 Definition nd_name (d : node_data) : str :=
   match d with
@@ -686,6 +716,7 @@ Definition nd_name (d : node_data) : str :=
   | NdFloat n => a_name (f_attr n) | NdFloatReg n => a_name (fr_attr n) | NdString n => a_name (s_attr n)
   | NdStringReg n => a_name (rn_attr n) | NdRegister n => a_name (rn_attr n)
   | NdIntSwissKnife n => a_name (sk_attr n) | NdPort n => a_name (po_attr n)
+  | NdConverter n => a_name (fc_attr n) | NdIntConverter n => a_name (ic_attr n) | NdSwissKnife n => a_name (fk_attr n)
   end.
 
 (* ------------------------------------------------------------------------------------------------ *)
@@ -788,6 +819,59 @@ Definition p_iswiss (attrs : list (str * str)) : P (iswiss Par) :=
   let! unit := parse_if T_Unit p_string in
   let! repr := parse_if T_Representation (p_enum irep_tbl) in
   ret (mkIswiss Par a e (dflt false st) vars consts exprs formula unit (dflt IrPureNumber repr))).
+
+(* SwissKnifeNode::parse *)
+Definition p_fswiss (attrs : list (str * str)) : P (fswiss Par) :=
+  with_attr attrs (fun a =>
+  let! e := p_eb in
+  let! st := parse_if T_Streamable p_bool in
+  let! vars := parse_while T_pVariable (p_named p_nodeid) in
+  let! consts := parse_while T_Constant (p_named p_f64) in
+  let! exprs := parse_while T_Expression (p_named p_string) in
+  let! formula := p_string in
+  let! unit := parse_if T_Unit p_string in
+  let! repr := parse_if T_Representation (p_enum frep_tbl) in
+  let! dn := parse_if T_DisplayNotation (p_enum dnot_tbl) in
+  let! dp := parse_if T_DisplayPrecision p_i64 in
+  ret (mkFswiss Par a e (dflt false st) vars consts exprs formula unit (dflt FrPureNumber repr)
+                (dflt DnAutomatic dn) (dflt 6 dp))).
+
+(* IntConverterNode::parse *)
+Definition p_iconv (attrs : list (str * str)) : P (iconv Par) :=
+  with_attr attrs (fun a =>
+  let! e := p_eb in
+  let! st := parse_if T_Streamable p_bool in
+  let! vars := parse_while T_pVariable (p_named p_nodeid) in
+  let! consts := parse_while T_Constant (p_named p_i64) in
+  let! exprs := parse_while T_Expression (p_named p_string) in
+  let! fto := p_string in
+  let! ffrom := p_string in
+  let! pv := p_nodeid in
+  let! unit := parse_if T_Unit p_string in
+  let! repr := parse_if T_Representation (p_enum irep_tbl) in
+  let! sl := parse_if T_Slope (p_enum slope_tbl) in
+  ret (mkIconv Par a e (dflt false st) vars consts exprs fto ffrom pv unit (dflt IrPureNumber repr)
+               (dflt SlAutomatic sl))).
+
+(* ConverterNode::parse *)
+Definition p_fconv (attrs : list (str * str)) : P (fconv Par) :=
+  with_attr attrs (fun a =>
+  let! e := p_eb in
+  let! st := parse_if T_Streamable p_bool in
+  let! vars := parse_while T_pVariable (p_named p_nodeid) in
+  let! consts := parse_while T_Constant (p_named p_f64) in
+  let! exprs := parse_while T_Expression (p_named p_string) in
+  let! fto := p_string in
+  let! ffrom := p_string in
+  let! pv := p_nodeid in
+  let! unit := parse_if T_Unit p_string in
+  let! repr := parse_if T_Representation (p_enum frep_tbl) in
+  let! dn := parse_if T_DisplayNotation (p_enum dnot_tbl) in
+  let! dp := parse_if T_DisplayPrecision p_i64 in
+  let! sl := parse_if T_Slope (p_enum slope_tbl) in
+  let! lin := parse_if T_IsLinear p_bool in
+  ret (mkFconv Par a e (dflt false st) vars consts exprs fto ffrom pv unit (dflt FrPureNumber repr)
+               (dflt DnAutomatic dn) (dflt 6 dp) (dflt SlAutomatic sl) (dflt false lin))).
 
 (* RegPIndex::parse *)
 Definition p_reg_pindex : P addr :=
@@ -1145,8 +1229,9 @@ Definition parse_leaf (fixed : bool) (fresh : Z) (tag : str) (attrs : list (str 
     on_ok (p_struct fixed ch)
           (fun n => let ms := into_masked_int_regs fixed (fst n) in
                     mkPres (snd n) (map NdMaskedIntReg ms) (masked_invs ms) fresh)
-  else if str_eqb tag T_Converter || str_eqb tag T_IntConverter || str_eqb tag T_SwissKnife then
-    Err E_UNMODELLED
+  else if str_eqb tag T_Converter then on_ok (p_fconv attrs ch) (fun n => pres1 fresh (NdConverter n))
+  else if str_eqb tag T_IntConverter then on_ok (p_iconv attrs ch) (fun n => pres1 fresh (NdIntConverter n))
+  else if str_eqb tag T_SwissKnife then on_ok (p_fswiss attrs ch) (fun n => pres1 fresh (NdSwissKnife n))
   else Panic.      (* todo!() for the DCAM kinds, unreachable!() otherwise *)
 
 Definition pres_app (a b : presult) : presult :=
@@ -1390,6 +1475,27 @@ Definition r_port (n : port Src) : xml :=
     (r_eb (po_eb n) (roimm T_ChunkID T_pChunkID sh_hlit (po_chunk n)
     (ropt T_SwapEndianess sh_blit (po_swap n) (ropt T_CacheChunkData sh_blit (po_cache n) [])))).
 
+Definition r_fswiss (s : fswiss Src) : xml :=
+  Elem T_SwissKnife (r_attr (fk_attr s))
+    (r_eb (fk_eb s) (ropt T_Streamable sh_blit (fk_streamable s) (r_named T_pVariable sid (fk_vars s)
+    (r_named T_Constant sh_fval (fk_consts s) (r_named T_Expression sid (fk_exprs s)
+    (el T_Formula (fk_formula s) :: r_float_tail (fk_unit s) (fk_repr s) (fk_dnot s) (fk_dprec s))))))).
+Definition r_iconv (s : iconv Src) : xml :=
+  Elem T_IntConverter (r_attr (ic_attr s))
+    (r_eb (ic_eb s) (ropt T_Streamable sh_blit (ic_streamable s) (r_named T_pVariable sid (ic_vars s)
+    (r_named T_Constant sh_ilit (ic_consts s) (r_named T_Expression sid (ic_exprs s)
+    (el T_FormulaTo (ic_to s) :: el T_FormulaFrom (ic_from s) :: el T_pValue (ic_pvalue s) ::
+     ropt T_Unit sid (ic_unit s) (ropt T_Representation irep_name (ic_repr s)
+     (ropt T_Slope slope_name (ic_slope s) [])))))))).
+Definition r_fconv (s : fconv Src) : xml :=
+  Elem T_Converter (r_attr (fc_attr s))
+    (r_eb (fc_eb s) (ropt T_Streamable sh_blit (fc_streamable s) (r_named T_pVariable sid (fc_vars s)
+    (r_named T_Constant sh_fval (fc_consts s) (r_named T_Expression sid (fc_exprs s)
+    (el T_FormulaTo (fc_to s) :: el T_FormulaFrom (fc_from s) :: el T_pValue (fc_pvalue s) ::
+     ropt T_Unit sid (fc_unit s) (ropt T_Representation frep_name (fc_repr s)
+     (ropt T_DisplayNotation dnot_name (fc_dnot s) (ropt T_DisplayPrecision sh_ilit (fc_dprec s)
+     (ropt T_Slope slope_name (fc_slope s) (ropt T_IsLinear sh_blit (fc_linear s) []))))))))))).
+
 (* declared nodes of a document *)
 Inductive snode :=
 | SnNode (n : plain Src) | SnCategory (n : category Src) | SnInteger (n : integer Src)
@@ -1398,6 +1504,7 @@ Inductive snode :=
 | SnFloatReg (n : floatreg Src) | SnString (n : stringn Src) | SnStringReg (n : regnode Src)
 | SnRegister (n : regnode Src) | SnIntSwissKnife (n : iswiss Src) | SnPort (n : port Src)
 | SnStructReg (s : structreg Src)
+| SnConverter (n : fconv Src) | SnIntConverter (n : iconv Src) | SnSwissKnife (n : fswiss Src)
 | SnGroup (l : list snode).
 
 Fixpoint render (n : snode) : xml :=
@@ -1408,6 +1515,7 @@ Fixpoint render (n : snode) : xml :=
   | SnFloatReg n => r_floatreg n | SnString n => r_stringn n | SnStringReg n => r_regnode T_StringReg n
   | SnRegister n => r_regnode T_Register n | SnIntSwissKnife n => r_iswiss n | SnPort n => r_port n
   | SnStructReg s => r_struct s
+  | SnConverter n => r_fconv n | SnIntConverter n => r_iconv n | SnSwissKnife n => r_fswiss n
   | SnGroup l => Elem T_Group [] (map render l)
   end.
 
@@ -1432,6 +1540,18 @@ Definition n_named {A B} (f : A -> B) (l : list (str * A)) : list (str * B) := m
 Definition n_iswiss (s : iswiss Src) : iswiss Par :=
   mkIswiss Par (n_attr (sk_attr s)) (n_eb (sk_eb s)) (nb (sk_streamable s)) (sk_vars s)
            (n_named il_val (sk_consts s)) (sk_exprs s) (sk_formula s) (sk_unit s) (dflt IrPureNumber (sk_repr s)).
+Definition n_fswiss (s : fswiss Src) : fswiss Par :=
+  mkFswiss Par (n_attr (fk_attr s)) (n_eb (fk_eb s)) (nb (fk_streamable s)) (fk_vars s) (fk_consts s) (fk_exprs s)
+           (fk_formula s) (fk_unit s) (dflt FrPureNumber (fk_repr s)) (dflt DnAutomatic (fk_dnot s))
+           (dflt 6 (option_map il_val (fk_dprec s))).
+Definition n_iconv (s : iconv Src) : iconv Par :=
+  mkIconv Par (n_attr (ic_attr s)) (n_eb (ic_eb s)) (nb (ic_streamable s)) (ic_vars s) (n_named il_val (ic_consts s))
+          (ic_exprs s) (ic_to s) (ic_from s) (ic_pvalue s) (ic_unit s) (dflt IrPureNumber (ic_repr s))
+          (dflt SlAutomatic (ic_slope s)).
+Definition n_fconv (s : fconv Src) : fconv Par :=
+  mkFconv Par (n_attr (fc_attr s)) (n_eb (fc_eb s)) (nb (fc_streamable s)) (fc_vars s) (fc_consts s) (fc_exprs s)
+          (fc_to s) (fc_from s) (fc_pvalue s) (fc_unit s) (dflt FrPureNumber (fc_repr s)) (dflt DnAutomatic (fc_dnot s))
+          (dflt 6 (option_map il_val (fc_dprec s))) (dflt SlAutomatic (fc_slope s)) (nb (fc_linear s)).
 Definition n_addr (a : saddr) : addr :=
   match a with
   | SaAddr x => AAddr (n_imm_i x)
@@ -1601,6 +1721,19 @@ Definition sh_body (d : node_data) : list Z :=
                    sh_v (fun p => sh_s (fst p)) (sk_exprs n) ++ sh_o sh_s (sk_unit n) ++ [irep_ord (sk_repr n)]
   | NdPort n => [18] ++ sh_s (a_name (po_attr n)) ++ [1] ++ sh_base (po_attr n) (po_eb n) ++ [0] ++
                    sh_o (sh_imm sh_z) (po_chunk n) ++ sh_b (po_swap n) ++ sh_b (po_cache n)
+  | NdConverter n => [14] ++ sh_s (a_name (fc_attr n)) ++ [1] ++ sh_base (fc_attr n) (fc_eb n) ++
+                   sh_b (fc_streamable n) ++ sh_named sh_s (fc_vars n) ++ sh_named sh_f (fc_consts n) ++
+                   sh_v (fun p => sh_s (fst p)) (fc_exprs n) ++ sh_s (fc_pvalue n) ++ sh_o sh_s (fc_unit n) ++
+                   [frep_ord (fc_repr n); dnot_ord (fc_dnot n); fc_dprec n; slope_ord (fc_slope n)] ++
+                   sh_b (fc_linear n)
+  | NdIntConverter n => [15] ++ sh_s (a_name (ic_attr n)) ++ [1] ++ sh_base (ic_attr n) (ic_eb n) ++
+                   sh_b (ic_streamable n) ++ sh_named sh_s (ic_vars n) ++ sh_named sh_z (ic_consts n) ++
+                   sh_v (fun p => sh_s (fst p)) (ic_exprs n) ++ sh_s (ic_pvalue n) ++ sh_o sh_s (ic_unit n) ++
+                   [irep_ord (ic_repr n); slope_ord (ic_slope n)]
+  | NdSwissKnife n => [16] ++ sh_s (a_name (fk_attr n)) ++ [1] ++ sh_base (fk_attr n) (fk_eb n) ++
+                   sh_b (fk_streamable n) ++ sh_named sh_s (fk_vars n) ++ sh_named sh_f (fk_consts n) ++
+                   sh_v (fun p => sh_s (fst p)) (fk_exprs n) ++ sh_o sh_s (fk_unit n) ++
+                   [frep_ord (fk_repr n); dnot_ord (fk_dnot n); fk_dprec n]
   end.
 Definition sh_node (d : node_data) : list Z := let b := sh_body d in zlen b :: b.
 
